@@ -249,7 +249,9 @@ def check(case):
             return r.skip("no well-defined score sequence for a tight threshold")
         top = limit
         ms = [float(np.max(v)) for v in (cold_scores or [])[: limit - n_pre] if np.size(v)]
-        if len(ms) < 1 or min(ms) <= 0 or not np.isfinite(ms).all():
+        if len(ms) < 1 or min(ms) <= 1e-9 * max(ms) or not np.isfinite(ms).all():
+            # a score that is zero up to rounding (e.g. 1e-34 for a sample with y = 0 and mixing = 0) is not a level a
+            # threshold can be placed "just below"
             return r.skip("no positive score sequence for a tight threshold")
         tight = 0.999 * min(ms) if thr == "tight-abs" else 0.999 * min(m / ms[0] for m in ms)
     full_compares = 0
